@@ -89,7 +89,7 @@ def feature_tag(case):
         t.append("NM8")      # a picture dimension that is not a multiple of 8 (the library pads internally)
     hl = c.get("hierarchical_levels", 4)
     if 1 <= hl <= 3 and c.get("intra_period_length", -2) + 1 == (1 << hl) and c.get("logical_processors", 0) in (1, 2) and c.get("enable_tpl_la", 1) != 0 \
-            and isinstance(case, dict) and case.get("frames", 0) > 16:
+            and isinstance(case, dict) and case.get("frames", 0) >= 8:
         t.append("IPMG")     # intra period == mini-GOP size: listed stall; generators exclude it by construction (gens.case_from)
     return "+".join(t) or "plain"
 
